@@ -203,9 +203,9 @@ Definition tag_of (env : nsenv) (q : qname) : str :=
 
 Definition sXMLNSCOLON := s2l " xmlns:".
 
-(* `for namespace, prefix in self.namespaces.items(): ' xmlns:' + prefix + '="' + _sanitize(namespace) + '"'` *)
+(* `for namespace, prefix in self.namespaces.items(): ' xmlns:' + prefix + '=' + _quoteattr(namespace)` *)
 Definition ns_dump (env : nsenv) : str :=
-  flat_map (fun e => sXMLNSCOLON ++ snd e ++ [cEQ; cQUOT] ++ sanitize filtered [] (fst e) ++ [cQUOT]) env.
+  flat_map (fun e => sXMLNSCOLON ++ snd e ++ [cEQ] ++ quoteattr filtered (fst e)) env.
 
 (* ' ' + _sanitize(prefix + ':' + local) + '=' + _quoteattr(value) *)
 Definition att_toXml (env : nsenv) (a : qname * str) : str :=
